@@ -219,6 +219,8 @@ func (p *xprinter) plusify() {
 	p.out = out
 }
 
+var exprKeywords = map[string]bool{"AND": true, "OR": true, "NOT": true, "XOR": true, "LIKE": true, "IS": true, "IN": true, "NULL": true, "TRUE": true, "FALSE": true}
+
 // render joins lexemes with spacing, comments and letter-case variation (decorate=false: single spaces, as is)
 func render(toks []xtok, r *rand.Rand, decorate bool) string {
 	var sb strings.Builder
@@ -229,11 +231,17 @@ func render(toks []xtok, r *rand.Rand, decorate bool) string {
 	for i, t := range toks {
 		lex := t.lexeme
 		if decorate && (t.kind != "Constant" && t.kind != "Variable" || t.ktext == "true" || t.ktext == "false") && wordLike(lex) {
-			switch r.Intn(3) {
+			switch r.Intn(4) {
 			case 0:
 				lex = strings.ToLower(lex)
 			case 1:
 				lex = strings.ToUpper(lex[:1]) + strings.ToLower(lex[1:])
+			case 2:
+				// keywords spelled with the letters whose upper case is an ASCII letter (long s, dotless i)
+				if exprKeywords[strings.ToUpper(lex)] {
+					lex = strings.ToLower(lex)
+					lex = lex[:1] + strings.NewReplacer("s", "\u017f", "i", "\u0131").Replace(lex[1:]) // the first letter must start a word
+				}
 			}
 		}
 		if i > 0 {
@@ -309,18 +317,42 @@ type recOps struct{ rc *recorder }
 func (o *recOps) Convert(v *variants.Variant, t variants.VariantType) (*variants.Variant, error) {
 	return v, nil
 }
-func (o *recOps) Add(a, b *variants.Variant) (*variants.Variant, error) { return o.rc.apply("Add", o.rc.fresh(), a, b) }
-func (o *recOps) Sub(a, b *variants.Variant) (*variants.Variant, error) { return o.rc.apply("Sub", o.rc.fresh(), a, b) }
-func (o *recOps) Mul(a, b *variants.Variant) (*variants.Variant, error) { return o.rc.apply("Mul", o.rc.fresh(), a, b) }
-func (o *recOps) Div(a, b *variants.Variant) (*variants.Variant, error) { return o.rc.apply("Div", o.rc.fresh(), a, b) }
-func (o *recOps) Mod(a, b *variants.Variant) (*variants.Variant, error) { return o.rc.apply("Mod", o.rc.fresh(), a, b) }
-func (o *recOps) Pow(a, b *variants.Variant) (*variants.Variant, error) { return o.rc.apply("Pow", o.rc.fresh(), a, b) }
-func (o *recOps) And(a, b *variants.Variant) (*variants.Variant, error) { return o.rc.apply("And", o.rc.fresh(), a, b) }
-func (o *recOps) Or(a, b *variants.Variant) (*variants.Variant, error)  { return o.rc.apply("Or", o.rc.fresh(), a, b) }
-func (o *recOps) Xor(a, b *variants.Variant) (*variants.Variant, error) { return o.rc.apply("Xor", o.rc.fresh(), a, b) }
-func (o *recOps) Lsh(a, b *variants.Variant) (*variants.Variant, error) { return o.rc.apply("Lsh", o.rc.fresh(), a, b) }
-func (o *recOps) Rsh(a, b *variants.Variant) (*variants.Variant, error) { return o.rc.apply("Rsh", o.rc.fresh(), a, b) }
-func (o *recOps) Not(a *variants.Variant) (*variants.Variant, error)    { return o.rc.apply("Not", o.rc.fresh(), a) }
+func (o *recOps) Add(a, b *variants.Variant) (*variants.Variant, error) {
+	return o.rc.apply("Add", o.rc.fresh(), a, b)
+}
+func (o *recOps) Sub(a, b *variants.Variant) (*variants.Variant, error) {
+	return o.rc.apply("Sub", o.rc.fresh(), a, b)
+}
+func (o *recOps) Mul(a, b *variants.Variant) (*variants.Variant, error) {
+	return o.rc.apply("Mul", o.rc.fresh(), a, b)
+}
+func (o *recOps) Div(a, b *variants.Variant) (*variants.Variant, error) {
+	return o.rc.apply("Div", o.rc.fresh(), a, b)
+}
+func (o *recOps) Mod(a, b *variants.Variant) (*variants.Variant, error) {
+	return o.rc.apply("Mod", o.rc.fresh(), a, b)
+}
+func (o *recOps) Pow(a, b *variants.Variant) (*variants.Variant, error) {
+	return o.rc.apply("Pow", o.rc.fresh(), a, b)
+}
+func (o *recOps) And(a, b *variants.Variant) (*variants.Variant, error) {
+	return o.rc.apply("And", o.rc.fresh(), a, b)
+}
+func (o *recOps) Or(a, b *variants.Variant) (*variants.Variant, error) {
+	return o.rc.apply("Or", o.rc.fresh(), a, b)
+}
+func (o *recOps) Xor(a, b *variants.Variant) (*variants.Variant, error) {
+	return o.rc.apply("Xor", o.rc.fresh(), a, b)
+}
+func (o *recOps) Lsh(a, b *variants.Variant) (*variants.Variant, error) {
+	return o.rc.apply("Lsh", o.rc.fresh(), a, b)
+}
+func (o *recOps) Rsh(a, b *variants.Variant) (*variants.Variant, error) {
+	return o.rc.apply("Rsh", o.rc.fresh(), a, b)
+}
+func (o *recOps) Not(a *variants.Variant) (*variants.Variant, error) {
+	return o.rc.apply("Not", o.rc.fresh(), a)
+}
 func (o *recOps) Negative(a *variants.Variant) (*variants.Variant, error) {
 	return o.rc.apply("Negative", o.rc.fresh(), a)
 }
@@ -330,8 +362,12 @@ func (o *recOps) Equal(a, b *variants.Variant) (*variants.Variant, error) {
 func (o *recOps) NotEqual(a, b *variants.Variant) (*variants.Variant, error) {
 	return o.rc.apply("NotEqual", o.rc.fresh(), a, b)
 }
-func (o *recOps) More(a, b *variants.Variant) (*variants.Variant, error) { return o.rc.apply("More", o.rc.fresh(), a, b) }
-func (o *recOps) Less(a, b *variants.Variant) (*variants.Variant, error) { return o.rc.apply("Less", o.rc.fresh(), a, b) }
+func (o *recOps) More(a, b *variants.Variant) (*variants.Variant, error) {
+	return o.rc.apply("More", o.rc.fresh(), a, b)
+}
+func (o *recOps) Less(a, b *variants.Variant) (*variants.Variant, error) {
+	return o.rc.apply("Less", o.rc.fresh(), a, b)
+}
 func (o *recOps) MoreEqual(a, b *variants.Variant) (*variants.Variant, error) {
 	return o.rc.apply("MoreEqual", o.rc.fresh(), a, b)
 }
@@ -383,10 +419,9 @@ func constText(v *variants.Variant) string {
 }
 
 // evalSymbolic sets and evaluates text on a real calculator with the recording manager installed.
-func evalSymbolic(text string, toks []xtok, varKeys []string, r *rand.Rand) Ev {
+func evalSymbolic(calc *calculator.ExpressionCalculator, text string, toks []xtok, varKeys []string, r *rand.Rand) Ev {
 	e := Ev{}
 	rc := &recorder{ids: map[*variants.Variant][]any{}, rnd: r}
-	calc := calculator.NewExpressionCalculator()
 	calc.SetAutoVariables(false)
 	calc.SetVariantOperations(&recOps{rc})
 	var err error
@@ -408,7 +443,7 @@ func evalSymbolic(text string, toks []xtok, varKeys []string, r *rand.Rand) Ev {
 	}
 	// did the lexer deliver the intended tokens?
 	var seen [][]string
-	for _, t := range calc.OriginalTokens() {
+	for _, t := range lexTokens(text) { // from a separate tokenizer of the parser's kind
 		k, tx := lexKind(t)
 		if k == "" {
 			continue
@@ -509,7 +544,16 @@ func varKeysOf(a *xast) []string {
 
 func execC01(seg []Ev) []Ev {
 	out := make([]Ev, 0, len(seg))
+	// one calculator per segment: single-event segments observe a fresh calculator, multi-event segments a long-lived one
+	calc := calculator.NewExpressionCalculator()
 	for _, in := range seg {
+		if toStr(in["op"]) == "noise" {
+			// an arbitrary (usually rejected) text set on the long-lived calculator between two well-formed expressions
+			var err error
+			oc, _ := guarded(func() { err = calc.SetExpression(toStr(in["text"])) })
+			out = append(out, Ev{"op": "noise", "text": in["text"], "outcome": oc, "rejected": err != nil})
+			continue
+		}
 		a := astFromEv(in)
 		root := toInt(in["root"])
 		mode := toInt(in["mode"])
@@ -520,8 +564,22 @@ func execC01(seg []Ev) []Ev {
 			p := &xprinter{a: a, mode: mode, r: r}
 			p.expr(root)
 			p.plusify()
+			wrap := 0
+			if w, ok := in["wrap"]; ok {
+				wrap = toInt(w) // the whole expression inside that many pairs of parentheses
+				var wo []xtok
+				for i := 0; i < wrap; i++ {
+					wo = append(wo, sym("("))
+				}
+				wo = append(wo, p.out...)
+				for i := 0; i < wrap; i++ {
+					wo = append(wo, sym(")"))
+				}
+				p.out = wo
+			}
 			text := render(p.out, r, mode == 2 || toBool(in["decorate"]))
-			e := evalSymbolic(text, p.out, varKeysOf(a), r)
+			e := evalSymbolic(calc, text, p.out, varKeysOf(a), r)
+			e["wrap"] = wrap
 			e["op"], e["nodes"], e["root"], e["mode"], e["pseed"], e["decorate"] = "eval", nodesAny(a), root, mode, seed, in["decorate"]
 			toks := make([][]string, len(p.out))
 			for i, t := range p.out {
@@ -674,8 +732,11 @@ func init() {
 		Rule: "one event per (syntax tree, rendering); non-trivial = distinct (tree, token list) with at least two operator nodes, " +
 			"i.e. where another parse of the same tokens would differ",
 		NonTrivial: func(seg []Ev) string {
-			e := seg[0]
+			e := seg[len(seg)-1]
 			ops := 0
+			if e["nodes"] == nil {
+				return ""
+			}
 			for _, n := range e["nodes"].([]any) {
 				if k := n.(xnode).K; k == "bin" || k == "un" || k == "idx" || k == "call" {
 					ops++
@@ -787,6 +848,57 @@ func genC01(g *Gen) {
 				emit("triples of forms", a, root, []int{0, 2})
 			}
 		}
+	}
+	// deep nesting and one long-lived calculator
+	randTree := func(depth int) (*xast, int) {
+		for {
+			a := &xast{}
+			xg := &xgen{a: a, r: r}
+			root := xg.tree(depth)
+			if len(a.nodes) <= 40 {
+				return a, root
+			}
+		}
+	}
+	for _, d := range []int{64, 128, 199, 200, 201, 256, 1000, 1001, 1025} {
+		if d > g.Pick(260, 2000) {
+			continue
+		}
+		a, root := randTree(2)
+		g.Run("deep nesting", []Ev{{"op": "eval", "nodes": nodesAny(a), "root": root, "mode": 0, "pseed": int(r.Int31()), "decorate": false, "wrap": d}})
+	}
+	noise := []string{"2 * (3 + ", "(((1 +", "f(1, (2", "a[", "1 1", ")", "((((((((", "x = 'abc", "NOT", "1 +* 2", "f(((a)"}
+	for rep := 0; rep < g.Pick(2, 8); rep++ {
+		var seg []Ev
+		n := g.Pick(260, 1400)
+		for i := 0; i < n; i++ {
+			seg = append(seg, Ev{"op": "noise", "text": noise[r.Intn(len(noise))]})
+			if i%53 == 52 || i == n-1 {
+				a, root := randTree(3)
+				seg = append(seg, Ev{"op": "eval", "nodes": nodesAny(a), "root": root, "mode": r.Intn(3), "pseed": int(r.Int31()), "decorate": false})
+			}
+		}
+		g.Run("one long-lived calculator: rejected texts in between", seg)
+	}
+	// the same calculator given two expressions that differ only in the letter case inside string constants / of identifiers
+	for i := 0; i < g.Pick(600, 6000); i++ {
+		a, root := randTree(1 + r.Intn(4))
+		b := &xast{nodes: append([]xnode{}, a.nodes...)}
+		changed := false
+		for j := range b.nodes {
+			if b.nodes[j].K == "const" && b.nodes[j].Op == "quoted" {
+				b.nodes[j].Text = strings.ToUpper(b.nodes[j].Text)
+				changed = true
+			}
+		}
+		if !changed {
+			continue
+		}
+		ps := int(r.Int31())
+		g.Run("one calculator, two expressions differing in letter case inside string constants", []Ev{
+			{"op": "eval", "nodes": nodesAny(a), "root": root, "mode": 0, "pseed": ps, "decorate": false},
+			{"op": "eval", "nodes": nodesAny(b), "root": root, "mode": 0, "pseed": ps, "decorate": false},
+			{"op": "eval", "nodes": nodesAny(a), "root": root, "mode": 0, "pseed": ps, "decorate": false}})
 	}
 	// random trees of any depth
 	n := g.Pick(2500, 60000)
